@@ -234,10 +234,10 @@ impl<'a> RecordIter<'a> {
             if s0.len() > 1 { lemma_bits(s0[1]); assert(s0.skip(1)[0] == s0[1]); assert(s0.skip(1).skip(1) =~= s0.skip(2)); }
         }
 //@@ end
-//@@ fn src/xlsb/mod.rs RecordIter::fill_buffer props=C03 entry ret=r
+//@@ fn src/xlsb/mod.rs RecordIter::fill_buffer props=C03,C19 entry ret=r
 //@@ sig
     ensures
-        //# C03.fill_len
+        //# C03,C19.fill_len
         r is Ok ==> vcomplete(old(self).rem(), 4) && r->Ok_0 as int == varint_len(old(self).rem()),
         //# C03.fill_avail
         r is Ok ==> old(self).rem().len() >= vhdr(old(self).rem(), 4) + varint_len(old(self).rem()),
